@@ -173,7 +173,26 @@ CLAIMED["C02"] = dict(
 
 NOT_YET = {}
 
+# stages added in the later mutant rounds (appended to the level text of the property)
+LATER = {
+    "C03": " Type-confusion matrix: for every ordered pair of 32 types a value of one is offered where the other is expected (result, annotated let, argument) and every builtin/projection/operator is applied to every type it does not fit; all must be rejected with a diagnostic and the identity at each type accepted.",
+    "C04": " Every harness entry runs under a per-case watchdog (a case that gives no answer is reported and the process replaced), so a hang is reported with its input. Damaged artifacts include every entry of every table of an embedded interface removed with the recorded hash kept.",
+    "C07": " Generators include type parameters that occur only in the result type of a function without parameters.",
+    "C08": " The matrix includes functions that return closures (alone and as a tuple of closures sharing a Ref), defined before their callers.",
+    "C13": " The files of one package are handed to check/build in every order: interface, core and linked Go must be byte-identical.",
+    "C14": " A third of the generated projects carry one defect of a kind reported by each stage (typer, name resolution, match compilation) in a package the entry package reaches: both ways must reject.",
+    "C16": " Directories with a file that declares another package (each host package, sorting first or last, each declared name, the root directory) must be rejected.",
+    "C19": " The type-name stage also instantiates the per-type runtime helpers (ref / array / vec) at sibling types (array lengths, tuple arities and nestings, instances).",
+    "C20": " Texts cut right after `x.`, `x.y`, `P::`, `P::Q` are queried at the very end of the text.",
+    "C01": " A Go side that exhausts the evaluation fuel while the source program ends within an eighth of it counts as a disagreement (non-termination).",
+    "C09": " A Go side that exhausts the evaluation fuel while the source program ends within an eighth of it counts as a disagreement (non-termination).",
+}
+
+
 def main():
+    for k_, v_ in LATER.items():
+        if k_ in CLAIMED and not CLAIMED[k_]["text"].endswith(v_):
+            CLAIMED[k_]["text"] = CLAIMED[k_]["text"] + v_
     props = [json.loads(l) for l in open(os.path.join(HERE, "properties.jsonl"))]
     checks = []
     na = []
